@@ -31,6 +31,7 @@ static const unsigned char FILL[2] = { 0x5A, 0xA5 };
    temporary buffer into the padding rows of the planes at small scaling factors (see
    design/C11.md); with a deterministic heap that is the same in both passes, so that
    "det" reports dependence on CALLER memory only. */
+#ifndef __SANITIZE_ADDRESS__
 extern void *__libc_malloc(size_t);
 extern void *__libc_realloc(void *, size_t);
 void *malloc(size_t n)
@@ -46,6 +47,7 @@ void *realloc(void *p, size_t n)
   if (q && n > old) memset((char *)q + old, 0xA0, n - old);
   return q;
 }
+#endif
 
 /* ------------------------------------------------------------ guarded buffers */
 typedef struct {
